@@ -262,6 +262,24 @@ CHECKS["C15"] = {
     "level_note": "seeds not sampled are not covered; cross-machine determinism is out of reach here",
 }
 
+CHECKS["C17"] = {
+    "title": "Babai reduction preserves the NTRU equation; both versions agree",
+    "rule": "Differential + invariant monitor on babai_reduce_i32 and babai_reduce_bigint: same Ok/Err and identical (F',G'); "
+            "f*G' - g*F' == f*G - g*F exactly (i128); a second reduction of an Ok result is the identity in both versions. "
+            "Inputs: the committed witnesses of the known finding first; n in {2,...,1024}, (f,g) Gaussian of the key-generation "
+            "width and of widths 0.6..6, (F,G) = (F0,G0) + k*(f,g) with |F0|,|G0| <= 127 and k dense/sparse/spiky/zero of magnitude "
+            "2^2..2^20, scaled until all coefficients are below 2^24, never (F,G) = 0; plus the PRODUCTION inputs captured by a hook "
+            "event at the call site inside key generation (unreduced pairs of size about 2^20). An Err is classified as the known "
+            "finding babai-tie-cycle only with its certificate (both versions Err with identical states; three consecutive calls "
+            "give S1, S2, S1, S1 != S2; equation preserved); any other Err, disagreement, equation or idempotence failure is a "
+            "violation. distinct_nontrivial = distinct inputs completely checked.",
+    "assumptions": ["exact i128 products of the harness", "inputs outside the stated domain ((F,G) = 0, coefficients >= 2^24) are not generated"],
+    "legs": [{"name": "synthetic"}, {"name": "captured"}],
+    "technique": "differential monitor between the two implementations + exact-integer invariant (NTRU form) + idempotence, on synthetic and hook-captured production inputs",
+    "level_text": "Sampled over the stated input domain and over inputs captured from real key generation; each execution checked exactly.",
+    "level_note": "known finding babai-tie-cycle is reported as KNOWN-FINDING (see known_findings.txt)",
+}
+
 NOT_APPLICABLE = {}
 
 ENGINES = [
